@@ -43,6 +43,8 @@ func checkC13(c *Ctx, r *Report, tier string) {
 	r.Rule("C13.R6", "what concurrent readers rely on: a removed vertex keeps its out-edges; distance computation is re-entrant (no package-level result slot)", 2)
 	removedVertexKeepsItsEdges(c, r, "C13.R6")
 	distanceIsReentrant(c, r, "C13.R6")
+	r.Rule("C13.R7", "no lock outlives the function that took it: every return of an index function is reached with its mutexes released (or released by a defer)", 1)
+	locksReleasedOnEveryReturn(c, r, "C13.R7", "index")
 }
 
 // acquirers: module functions that may acquire a mutex or perform a channel operation (transitively).
